@@ -24,6 +24,7 @@ import (
 	"strconv"
 	"strings"
 	"testing"
+	"time"
 	"unicode/utf8"
 	"unsafe"
 
@@ -63,7 +64,13 @@ func TestVerifReplayC11(t *testing.T) {
 	}
 	for _, bb := range []byte{0, 0x7f, 0x80, 0xe2, 0xff} {
 		bb := bb
-		cases = append(cases, c11case{fmt.Sprintf("StringBuilder.UnsafeByte(%d)", bb), func() { var b builder.StringBuilder; b.UnsafeByte(bb); b.SafeByte(i.SafeByte(bb)); _ = b.WriteByte(bb); _ = b.RedactableString() }})
+		cases = append(cases, c11case{fmt.Sprintf("StringBuilder.UnsafeByte(%d)", bb), func() {
+			var b builder.StringBuilder
+			b.UnsafeByte(bb)
+			b.SafeByte(i.SafeByte(bb))
+			_ = b.WriteByte(bb)
+			_ = b.RedactableString()
+		}})
 	}
 	for _, f := range []string{"%", "%!", "%[", "%[1", "%[1]", "%[0]d", "%[9]d", "%*d", "%.*d", "%[2]*[1]d", "%-010d", "%.", "%1000000d", "%10000000d", "%.1000001f", "\xff%\xff", "%w", "%x %X %q %v %d %s %T %p %t %e %U %c %b %o %O", "%!(NOVERB)", "%99999999999999999999d", "%[99999999999999999999]d", "%-+# 0123.456v"} {
 		f := f
@@ -82,7 +89,11 @@ func TestVerifReplayC11(t *testing.T) {
 		f := f
 		for _, v := range []interface{}{7, -7, int64(math.MinInt64), uint64(math.MaxUint64), uint8(200), SafeInt(-1)} {
 			v := v
-			cases = append(cases, c11case{fmt.Sprintf("Sprintf(%q, [150,] %#v)", f, v), func() {
+			name := fmt.Sprintf("Sprintf(%q, %T(%v)) / StringBuilder.Printf / SafePrinter.Printf", f, v, v)
+			if strings.Contains(f, "*") {
+				name = fmt.Sprintf("Sprintf(%q, 150, %T(%v)) / StringBuilder.Printf", f, v, v)
+			}
+			cases = append(cases, c11case{name, func() {
 				if strings.Contains(f, "*") {
 					_ = Sprintf(f, 150, v)
 					var b builder.StringBuilder
@@ -197,55 +208,58 @@ type c11Raise struct {
 	text       string // fmt's rendering of the payload (what must appear, escaped, in the report)
 	propagates bool   // printing the payload panics itself: the statement lets this propagate
 	lenient    bool   // only "no panic / text intact" is checked (payloads that declare themselves safe, panic(nil))
+	noEnv      bool   // the payload is a nil pointer: it is reported as the constant <nil>, which need not be enveloped
 }
 
 type c11PString struct{ r *c11Raise }
 
-func (p *c11PString) String() string { c11Invoked++; p.r.f(); return "unreachable" }
+func (p *c11PString) String() string { r := p.r; c11Invoked++; r.f(); return "unreachable" }
 
 type c11VString struct{ r *c11Raise }
 
-func (p c11VString) String() string { c11Invoked++; p.r.f(); return "unreachable" }
+func (p c11VString) String() string { r := p.r; c11Invoked++; r.f(); return "unreachable" }
 
 type c11PError struct{ r *c11Raise }
 
-func (p *c11PError) Error() string { c11Invoked++; p.r.f(); return "unreachable" }
+func (p *c11PError) Error() string { r := p.r; c11Invoked++; r.f(); return "unreachable" }
 
 type c11PFormat struct{ r *c11Raise }
 
-func (p *c11PFormat) Format(fmt.State, rune) { c11Invoked++; p.r.f() }
+func (p *c11PFormat) Format(fmt.State, rune) { r := p.r; c11Invoked++; r.f() }
 
 type c11PGoString struct{ r *c11Raise }
 
-func (p *c11PGoString) GoString() string { c11Invoked++; p.r.f(); return "unreachable" }
+func (p *c11PGoString) GoString() string { r := p.r; c11Invoked++; r.f(); return "unreachable" }
 
 type c11PSafeFormat struct{ r *c11Raise }
 
-func (p *c11PSafeFormat) SafeFormat(SafePrinter, rune) { c11Invoked++; p.r.f() }
+func (p *c11PSafeFormat) SafeFormat(SafePrinter, rune) { r := p.r; c11Invoked++; r.f() }
 
 type c11PSafeMessage struct{ r *c11Raise }
 
-func (p *c11PSafeMessage) SafeMessage() string { c11Invoked++; p.r.f(); return "unreachable" }
+func (p *c11PSafeMessage) SafeMessage() string { r := p.r; c11Invoked++; r.f(); return "unreachable" }
 
 // partial output, then panic
 type c11PFormatPartial struct{ r *c11Raise }
 
 func (p *c11PFormatPartial) Format(s fmt.State, _ rune) {
+	r := p.r
 	c11Invoked++
 	_, _ = io.WriteString(s, "fp")
 	_, _ = s.Write([]byte("fq"))
-	p.r.f()
+	r.f()
 }
 
 type c11PSafeFormatPartial struct{ r *c11Raise }
 
 func (p *c11PSafeFormatPartial) SafeFormat(w SafePrinter, _ rune) {
+	r := p.r
 	c11Invoked++
 	w.SafeString("sp")
 	w.UnsafeString("up")
 	w.Printf("%d-%s", 42, "n")
 	w.Print(Safe("q"))
-	p.r.f()
+	r.f()
 }
 
 // a SafeFormatter that contains a panicking operand and goes on writing
@@ -295,7 +309,7 @@ func (c11SFAll) SafeFormat(w SafePrinter, verb rune) {
 	w.Print(nil, nil)
 	w.Printf("")
 	w.Printf("%")
-	w.Printf("%*d", 100000, 1)
+	w.Printf("%*d", 300, 1)
 	w.Printf("%[3]*.[2]*[1]f", 12.0, 2, 6)
 	_, _ = w.Write(nil)
 	_, _ = w.Write([]byte("\xe2\x80\xb9\n"))
@@ -359,15 +373,17 @@ type c11SafeInt int
 func (c11SafeInt) SafeValue() {}
 
 type c11State struct {
-	wid, prec   int
-	widOk, pOk  bool
-	flags       string
+	wid, prec  int
+	widOk, pOk bool
+	flags      string
 	bytes.Buffer
 }
 
 func (s *c11State) Width() (int, bool)     { return s.wid, s.widOk }
 func (s *c11State) Precision() (int, bool) { return s.prec, s.pOk }
-func (s *c11State) Flag(c int) bool        { return c >= 0 && c < 128 && strings.IndexByte(s.flags, byte(c)) >= 0 }
+func (s *c11State) Flag(c int) bool {
+	return c >= 0 && c < 128 && strings.IndexByte(s.flags, byte(c)) >= 0
+}
 
 type c11ErrWriter struct{ n int }
 
@@ -403,11 +419,13 @@ func c11Raises() []*c11Raise {
 		{name: `nil pointer dereference`, f: func() { nilptr.a = 1 }},
 		{name: `index out of range`, f: func() { var s []int; k := 5; _ = s[k] }},
 		{name: `panic(12345)`, f: func() { panic(12345) }},
-		{name: `panic((*c11PString)(nil))`, f: func() { panic((*c11PString)(nil)) }},
-		{name: `panic(struct{a int; b string}{1, "x"})`, f: func() { panic(struct {
-			a int
-			b string
-		}{1, "x"}) }},
+		{name: `panic((*c11PString)(nil))`, f: func() { panic((*c11PString)(nil)) }, noEnv: true},
+		{name: `panic(struct{a int; b string}{1, "x"})`, f: func() {
+			panic(struct {
+				a int
+				b string
+			}{1, "x"})
+		}, noEnv: true}, // enveloped field by field
 		{name: `panic(Safe("sboom"))`, f: func() { panic(Safe("sboom")) }, lenient: true},
 		{name: `panic(nil)`, f: func() { panic(nil) }, lenient: true},
 	}
@@ -729,6 +747,10 @@ func c11CallText(ep int, format string, argText string) string {
 // and fmtRef says fmt is a reference for it) and the text around the directive is intact.
 // It returns the output and whether the call returned normally.
 func c11Run(rep *c11Rep, ep int, format string, args []interface{}, argText string, fmtRef, mayPropagate bool) (string, bool) {
+	tail := "|Z"
+	if !strings.HasSuffix(format, tail) {
+		tail = "" // the directive without verb ends the format
+	}
 	var out, pre, post string
 	pv, panicked := c11Try(func() { out, pre, post = c11Print(ep, format, args) })
 	if panicked {
@@ -746,7 +768,7 @@ func c11Run(rep *c11Rep, ep int, format string, args []interface{}, argText stri
 	d := c11DelMarkers(out)
 	if !strings.HasPrefix(d, pre+"A|") {
 		rep.fail(c11CallText(ep, format, argText), out, "text written before the directive is lost or altered")
-	} else if !strings.HasSuffix(d, post) || !(strings.HasSuffix(d, "|Z"+post) || strings.Contains(d, "|Z%!(EXTRA ")) {
+	} else if !strings.HasSuffix(d, post) || !(strings.HasSuffix(d, tail+post) || strings.Contains(d, tail+"%!(EXTRA ")) {
 		rep.fail(c11CallText(ep, format, argText), out, "text written after the directive is lost or altered")
 	}
 	return out, true
@@ -765,7 +787,7 @@ func c11FlagSets(all bool) []string {
 		fs = append(fs, s)
 	}
 	if !all {
-		return []string{"", "+", "-", "#", " ", "0", "+#0", "+-# 0", "#0", "-0", " 0", "+ "}
+		return []string{"", "+", "-", "#", " ", "0", "+#0", "+-# 0"}
 	}
 	return append(fs, "0-", "00", "##", "0+#")
 }
@@ -796,8 +818,8 @@ func c11Widths(level int) []c11WP {
 			{"*", []interface{}{5}, "5, "}, {"*", []interface{}{"x"}, "\"x\", "}, {"*", []interface{}{int64(1) << 40}, "int64(1)<<40, "}}...)
 	}
 	if level >= 2 {
-		w = append(w, []c11WP{{"65", nil, ""}, {"66", nil, ""}, {"67", nil, ""}, {"68", nil, ""}, {"70", nil, ""}, {"3000", nil, ""}, {"1000000", nil, ""}, {"1000001", nil, ""},
-			{"*", []interface{}{-1000}, "-1000, "}, {"*", []interface{}{1000000}, "1000000, "}, {"*", []interface{}{1000001}, "1000001, "},
+		w = append(w, []c11WP{{"65", nil, ""}, {"66", nil, ""}, {"67", nil, ""}, {"68", nil, ""}, {"70", nil, ""}, {"3000", nil, ""},
+			{"*", []interface{}{-1000}, "-1000, "},
 			{"*", []interface{}{nil}, "nil, "}, {"*", []interface{}{uint8(200)}, "uint8(200), "}, {"*", []interface{}{uint64(math.MaxUint64)}, "uint64(math.MaxUint64), "},
 			{"*", []interface{}{math.MinInt64}, "math.MinInt64, "}, {"*", []interface{}{int8(-128)}, "int8(-128), "}, {"*", []interface{}{1.5}, "1.5, "}}...)
 	}
@@ -810,7 +832,7 @@ func c11Precs(level int) []c11WP {
 		p = append(p, []c11WP{{".1", nil, ""}, {".64", nil, ""}, {".1000", nil, ""}, {".*", []interface{}{-5}, "-5, "}, {".*", []interface{}{"x"}, "\"x\", "}}...)
 	}
 	if level >= 2 {
-		p = append(p, []c11WP{{".65", nil, ""}, {".66", nil, ""}, {".67", nil, ""}, {".68", nil, ""}, {".3000", nil, ""}, {".1000000", nil, ""}, {".1000001", nil, ""},
+		p = append(p, []c11WP{{".65", nil, ""}, {".66", nil, ""}, {".67", nil, ""}, {".68", nil, ""}, {".3000", nil, ""},
 			{".*", []interface{}{1000}, "1000, "}, {".*", []interface{}{int64(1) << 40}, "int64(1)<<40, "}, {".*", []interface{}{nil}, "nil, "},
 			{".*", []interface{}{uint16(300)}, "uint16(300), "}, {".*", []interface{}{0}, "0, "}}...)
 	}
@@ -821,11 +843,10 @@ func c11Precs(level int) []c11WP {
 func c11SweepDirectives(rep *c11Rep) {
 	thorough := c11Thorough()
 	verbs, flags, ops := c11Verbs(), c11FlagSets(thorough), c11Ops()
-	level := 0
 	widths, precs := c11Widths(0), c11Precs(0)
 	if !thorough {
 		widths = []c11WP{widths[0], widths[2], widths[3]}
-		precs = []c11WP{precs[0], precs[1], precs[4]}
+		precs = []c11WP{precs[0], precs[4]}
 	}
 	cases, nontrivial := 0, 0
 	for _, verb := range verbs {
@@ -833,6 +854,9 @@ func c11SweepDirectives(rep *c11Rep) {
 			for wi, w := range widths {
 				for pi, p := range precs {
 					format := "A|%" + fl + w.text + p.text + verb + "|Z"
+					if verb == "" {
+						format = "A|%" + fl + w.text + p.text
+					}
 					for _, op := range ops {
 						if rep.full() {
 							return
@@ -855,7 +879,6 @@ func c11SweepDirectives(rep *c11Rep) {
 			}
 		}
 	}
-	_ = level
 	c11Bounded("no panic and text around the directive intact, for every verb x flag subset x width/precision x operand kind (Sprintf; also StringBuilder.Printf, SafePrinter.Printf, HelperForErrorf, Fprintf when no width/precision)",
 		cases, nontrivial, "the verb is valid for the operand: the output has no %!verb(...) report",
 		fmt.Sprintf("%d verbs (all ASCII letters, %%, !, punctuation, control, multi-byte, invalid UTF-8, none) x %d flag strings x %d widths x %d precisions x %d operands", len(verbs), len(flags), len(widths), len(precs), len(ops)),
@@ -874,20 +897,24 @@ func c11SweepIntegers(rep *c11Rep) {
 		widths, precs = c11Widths(2), c11Precs(2)
 	}
 	cases, nontrivial := 0, 0
+	// widths and precisions at the limit of what the printer accepts (a million columns): few flags and operands
+	huge := []c11WP{{"1000000", nil, ""}, {"1000001", nil, ""}, {"*", []interface{}{1000000}, "1000000, "}, {"*", []interface{}{1000001}, "1000001, "},
+		{".1000000", nil, ""}, {".1000001", nil, ""}, {".*", []interface{}{1000000}, "1000000, "}, {"1000000.7", nil, ""}}
+	hugeFlags, hugeOps := []string{"+#0"}, ops[:1]
+	if thorough {
+		hugeFlags, hugeOps = []string{"", "0", "+#0", "-# "}, ops[:2]
+	}
 	for _, verb := range verbs {
 		for _, fl := range flags {
-			for _, w := range widths {
-				for _, p := range precs {
-					format := "A|%" + fl + w.text + p.text + verb + "|Z"
-					if len(w.text)+len(p.text) > 12 {
-						continue // width and precision of a million each: 2 MB per call, nothing new
+			for wi, w := range widths {
+				for pi, p := range precs {
+					if wi >= len(c11Widths(1)) && pi >= len(c11Precs(1)) {
+						continue // the rarer widths are combined with the common precisions and conversely
 					}
-					for k, op := range ops {
+					format := "A|%" + fl + w.text + p.text + verb + "|Z"
+					for _, op := range ops {
 						if rep.full() {
 							return
-						}
-						if (len(w.text) > 6 || len(p.text) > 7) && k > 3 {
-							break // a million columns: a few operands only
 						}
 						args := append(append(append([]interface{}(nil), w.arg...), p.arg...), op.v)
 						argText := w.name + p.name + op.name
@@ -916,9 +943,31 @@ func c11SweepIntegers(rep *c11Rep) {
 			}
 		}
 	}
+	for _, verb := range verbs {
+		for _, fl := range hugeFlags {
+			for _, h := range huge {
+				for _, op := range hugeOps {
+					if rep.full() {
+						return
+					}
+					format := "A|%" + fl + h.text + verb + "|Z"
+					args := append(append([]interface{}(nil), h.arg...), op.v)
+					cases++
+					out, ok := c11Run(rep, c11EpSprintf, format, args, h.name+op.name, true, false)
+					if !ok {
+						continue
+					}
+					nontrivial++
+					if want := c11EscMarkers(fmt.Sprintf(format, args...)); c11DelMarkers(out) != want {
+						rep.fail(c11CallText(c11EpSprintf, format, h.name+op.name), out, "the rendering differs from fmt's for a plain integer operand (digits or padding lost); fmt gives "+c11Short(want))
+					}
+				}
+			}
+		}
+	}
 	c11Bounded("integer/rune verbs with large width and precision: no panic, text intact, rendering equal to fmt's after removing the delimiters",
 		cases, nontrivial, "the output is longer than the 68-byte fixed scratch buffer of the integer formatter",
-		fmt.Sprintf("verbs d x X o O b U c q v x 32 flag subsets x %d widths (0..3000, 1e6, '*' with int/negative/huge/non-int operands) x %d precisions x %d integer operands (all sizes, min/max, invalid runes)", len(widths), len(precs), len(ops)),
+		fmt.Sprintf("verbs d x X o O b U c q v x 32 flag subsets x %d widths x %d precisions (each of the first 11 with all of the other kind; widths 0..3000, '*' with int/negative/huge/non-int operands) x %d integer operands (all sizes, min/max, invalid runes); plus 8 width/precision texts of 1e6 and 1e6+1 x %d flag strings x %d operands", len(widths), len(precs), len(ops), len(hugeFlags), len(hugeOps)),
 		rep.fails == 0)
 }
 
@@ -929,12 +978,875 @@ func c11Short(s string) string {
 	return fmt.Sprintf("%q", s)
 }
 
+// sweep C: explicit operand indexes, valid and malformed, at the three places of a directive
+func c11SweepIndexes(rep *c11Rep) {
+	thorough := c11Thorough()
+	idx := []string{"", "[1]", "[2]", "[0]", "[4]", "[", "[x]", "[99999999999999999999]"}
+	if thorough {
+		idx = append(idx, "[3]", "[-1]", "[]", "[1", "]", "[1]]", "[1][2]", "[ 1]", "[1 ]", "[1000001]", "[+1]", "[1.5]", "[\xff]", "[*]", "[2]*")
+	}
+	ws := []string{"", "*", "5"}
+	ps := []string{"", ".*", ".3", "."}
+	verbs := []string{"d", "v", "s", "x", "w", "T", "%", "é"}
+	type al struct {
+		a    []interface{}
+		text string
+	}
+	argLists := []al{{nil, ""}, {[]interface{}{1}, "1"}, {[]interface{}{"a", 2}, "\"a\", 2"}, {[]interface{}{3, 4, "x"}, "3, 4, \"x\""},
+		{[]interface{}{nil, nil}, "nil, nil"}, {[]interface{}{-2, uint8(3), 2.5, io.EOF}, "-2, uint8(3), 2.5, io.EOF"}}
+	cases, nontrivial := 0, 0
+	for _, i1 := range idx {
+		for _, w := range ws {
+			for _, p := range ps {
+				for _, i2 := range idx {
+					if p == "" && i2 != "" {
+						continue
+					}
+					for _, i3 := range idx {
+						for _, verb := range verbs {
+							format := "A|%" + i1 + w + p + i2 + i3 + verb + "|Z"
+							if p != "" && i2 != "" {
+								format = "A|%" + i1 + w + p[:1] + i2 + p[1:] + i3 + verb + "|Z"
+							}
+							for _, a := range argLists {
+								if rep.full() {
+									return
+								}
+								cases++
+								ep := c11EpSprintf
+								if cases%5 == 0 {
+									ep = c11EpErrorf
+								}
+								out, ok := c11RunFree(rep, ep, format, a.a, a.text)
+								if !ok {
+									continue
+								}
+								want := c11EscMarkers(fmt.Sprintf(format, a.a...))
+								if verb == "w" && ep == c11EpErrorf {
+									want = c11EscMarkers(fmt.Errorf(format, a.a...).Error())
+								}
+								if got := c11DelMarkers(out); got != want {
+									rep.fail(c11CallText(ep, format, a.text), out, "the rendering differs from fmt's (text lost or altered); fmt gives "+c11Short(want))
+								}
+								if strings.Contains(out, "BADINDEX") || strings.Contains(out, "MISSING") || strings.Contains(out, "BAD") {
+									nontrivial++
+								}
+							}
+						}
+					}
+				}
+			}
+		}
+	}
+	c11Bounded("explicit operand indexes %[n] (valid, 0, too large, malformed) before width, precision and verb: no panic, rendering equal to fmt's after removing the delimiters",
+		cases, nontrivial, "the output reports BADINDEX, MISSING, BADWIDTH or BADPREC",
+		fmt.Sprintf("%d index texts at 3 positions x widths {none,*,5} x precisions {none,.*,.3,.} x verbs d v s x w T %% é x %d operand lists", len(idx), len(argLists)),
+		rep.fails == 0)
+}
+
+// c11RunFree: like c11Run for formats whose tail may be swallowed by a malformed directive: only
+// "no panic (unless fmt panics too)" and the leading text are checked here.
+func c11RunFree(rep *c11Rep, ep int, format string, args []interface{}, argText string) (string, bool) {
+	var out, pre string
+	pv, panicked := c11Try(func() { out, pre, _ = c11Print(ep, format, args) })
+	if panicked {
+		if _, fp := c11Try(func() { _ = fmt.Sprintf(format, args...) }); fp {
+			return "", false
+		}
+		rep.fail(c11CallText(ep, format, argText), "panic: "+fmt.Sprint(pv), "the call panicked (fmt does not panic on the same call)")
+		return "", false
+	}
+	if !strings.HasPrefix(c11DelMarkers(out), pre+"A|") {
+		rep.fail(c11CallText(ep, format, argText), out, "text written before the directive is lost or altered")
+	}
+	return out, true
+}
+
+// sweep D: user methods that panic
+type c11Ctx struct {
+	name string
+	wrap func(v interface{}) interface{}
+	safe bool // the caller declared the operand safe: the payload need not be enveloped
+}
+
+func c11Contexts() []c11Ctx {
+	return []c11Ctx{
+		{"%s", func(v interface{}) interface{} { return v }, false},
+		{"Safe(%s)", func(v interface{}) interface{} { return Safe(v) }, true},
+		{"Unsafe(%s)", func(v interface{}) interface{} { return Unsafe(v) }, false},
+		{"[]interface{}{1, %s}", func(v interface{}) interface{} { return []interface{}{1, v} }, false},
+		{"c11Exp{A: %s}", func(v interface{}) interface{} { return c11Exp{A: v} }, false},
+		{"&c11Exp{E: []interface{}{%s}}", func(v interface{}) interface{} { return &c11Exp{E: []interface{}{v}} }, false},
+		{"map[interface{}]interface{}{\"k\": %s}", func(v interface{}) interface{} { return map[interface{}]interface{}{"k": v} }, false},
+		{"reflect.ValueOf(%s)", func(v interface{}) interface{} { return reflect.ValueOf(v) }, false},
+		{"c11SFOuter{%s}", func(v interface{}) interface{} { return c11SFOuter{v} }, false},
+	}
+}
+
+const (
+	c11EpPrint = c11EpCount + iota
+	c11EpSBPrint
+	c11EpJoinTo
+	c11EpSprint
+)
+
+// c11PrintPlain prints op (default format) between literal texts through the Print-style entry points.
+func c11PrintPlain(ep int, op interface{}) (string, string) {
+	switch ep {
+	case c11EpPrint:
+		return string(Sprintfn(func(w SafePrinter) {
+			w.SafeString("A|")
+			w.Print(op)
+			w.SafeString("|M|")
+			w.Print("tail")
+			w.SafeString("|Z")
+		})), "Sprintfn(w.SafeString(\"A|\"); w.Print(%s); w.SafeString(\"|M|\"); w.Print(\"tail\"); w.SafeString(\"|Z\"))"
+	case c11EpSBPrint:
+		var b builder.StringBuilder
+		b.SafeString("A|")
+		b.Print(op)
+		b.SafeString("|M|")
+		b.Print("tail")
+		b.SafeString("|Z")
+		return string(b.RedactableString()), "StringBuilder{SafeString(\"A|\"); Print(%s); SafeString(\"|M|\"); Print(\"tail\"); SafeString(\"|Z\")}"
+	case c11EpJoinTo:
+		var b builder.StringBuilder
+		b.SafeString("A|")
+		JoinTo(&b, "|M|", []interface{}{op, "tail"})
+		b.SafeString("|Z")
+		return string(b.RedactableString()), "StringBuilder{SafeString(\"A|\"); JoinTo(&b, \"|M|\", []interface{}{%s, \"tail\"}); SafeString(\"|Z\")}"
+	}
+	return string(Sprint(Safe("A|"), op, Safe("|M|"), "tail", Safe("|Z"))), "Sprint(Safe(\"A|\"), %s, Safe(\"|M|\"), \"tail\", Safe(\"|Z\"))"
+}
+
+// c11CheckReport checks the statement's clause on a contained panic: reported in place as
+// %!verb(PANIC=...), payload inside an envelope, text around intact.
+func c11CheckReport(rep *c11Rep, call, out string, invoked int, r *c11Raise, pk c11Panicker, safeCtx bool) {
+	if !strings.Contains(out, "|M|"+vS+"tail"+vE+"|Z") && !strings.Contains(out, "| M |") {
+		if !strings.Contains(c11DelMarkers(out), "tail") || !strings.Contains(out, vS+"tail"+vE) {
+			rep.fail(call, out, "the operand printed after the panicking one is lost or no longer enveloped")
+			return
+		}
+	}
+	if r == nil || r.lenient || r.propagates || pk.nilRecv || invoked == 0 {
+		return
+	}
+	if !vWellFormed(out) {
+		rep.fail(call, out, "the output around a contained panic is not well-formed")
+		return
+	}
+	if n := strings.Count(out, "(PANIC="); n != invoked {
+		rep.fail(call, out, fmt.Sprintf("%d user method invocations panicked but %d %%!verb(PANIC=...) reports are in the output", invoked, n))
+		return
+	}
+	esc := c11EscMarkers(r.text)
+	rest := out
+	for {
+		k := strings.Index(rest, "(PANIC=")
+		if k < 0 {
+			break
+		}
+		base := len(out) - len(rest) + k + len("(PANIC=")
+		if before := c11DelMarkers(rest[:k]); !strings.HasSuffix(before[:len(before)-c11LastRuneLen(before)], "%!") {
+			rep.fail(call, out, "the panic report does not have the form %!verb(PANIC=...)")
+			return
+		}
+		if pk.partial != "" {
+			b := c11DelMarkers(rest[:k])
+			b = b[:len(b)-c11LastRuneLen(b)]
+			if !strings.HasSuffix(b, pk.partial+"%!") {
+				rep.fail(call, out, "the output written by the user method before it panicked ("+pk.partial+") is lost")
+				return
+			}
+		}
+		rest = rest[k+len("(PANIC="):]
+		// the report in the text without delimiters: label, payload, ")"
+		dr := c11DelMarkers(rest)
+		j := strings.Index(dr, esc)
+		if j < 0 || strings.Contains(dr[:j], ")") || strings.Contains(dr[:j], "(PANIC=") {
+			rep.fail(call, out, "the panic payload "+fmt.Sprintf("%q", esc)+" is not in the report")
+			return
+		}
+		if !strings.HasPrefix(dr[j+len(esc):], ")") {
+			rep.fail(call, out, "the panic report is not closed after the payload")
+			return
+		}
+		if !safeCtx && !r.noEnv {
+			// atomic payloads (strings, errors, numbers) are one contiguous unsafe datum
+			jj := strings.Index(rest, esc)
+			if jj < 0 || !c11Inside(out, base+jj) {
+				rep.fail(call, out, "the panic payload is not inside an envelope (it must be treated as unsafe)")
+				return
+			}
+		}
+	}
+}
+
+func c11LastRuneLen(s string) int {
+	if s == "" {
+		return 0
+	}
+	_, n := utf8.DecodeLastRuneInString(s)
+	return n
+}
+
+func c11SweepPanics(rep *c11Rep) {
+	thorough := c11Thorough()
+	verbs := []string{"v", "s", "d", "x", "q", "w", "T", "é", "X"}
+	flags := []string{"", "+", "#", "-"}
+	widths := []string{"", "30"}
+	if thorough {
+		flags = []string{"", "+", "#", "-", "0", " ", "+#", "#0", "+-# 0"}
+		widths = []string{"", "30", "100", ".2", "10.3"}
+	}
+	ctxs := c11Contexts()
+	cases, nontrivial := 0, 0
+	raises := c11Raises()
+	for ri := -1; ri < len(raises); ri++ {
+		var r *c11Raise
+		pks := c11NilPanickers()
+		if ri >= 0 {
+			r = raises[ri]
+			pks = c11Panickers(r)
+		}
+		for _, pk := range pks {
+			for _, ctx := range ctxs {
+				op := ctx.wrap(pk.v)
+				opText := fmt.Sprintf(ctx.name, pk.name)
+				mayProp := r != nil && r.propagates
+				// Print-style entry points
+				for _, ep := range []int{c11EpPrint, c11EpSBPrint, c11EpJoinTo, c11EpSprint} {
+					if rep.full() {
+						return
+					}
+					cases++
+					c11Invoked = 0
+					var out, callFmt string
+					pv, panicked := c11Try(func() { out, callFmt = c11PrintPlain(ep, op) })
+					if callFmt == "" {
+						_, callFmt = c11PrintPlain(ep, 0)
+					}
+					call := fmt.Sprintf(callFmt, opText)
+					if panicked {
+						if !mayProp {
+							rep.fail(call, "panic: "+fmt.Sprint(pv), "a panic of a user method was not contained")
+						}
+						continue
+					}
+					if !strings.HasPrefix(c11DelMarkers(out), "A|") || !strings.HasSuffix(c11DelMarkers(out), "|Z") {
+						rep.fail(call, out, "text written before or after the panicking operand is lost")
+						continue
+					}
+					if c11Invoked > 0 {
+						nontrivial++
+					}
+					c11CheckReport(rep, call, out, c11Invoked, r, pk, ctx.safe)
+				}
+				// Printf-style entry points
+				for _, verb := range verbs {
+					for _, fl := range flags {
+						for _, w := range widths {
+							format := "A|%" + fl + w + verb + "|M|%v|Z"
+							eps := []int{cases % c11EpCount}
+							if thorough {
+								eps = []int{0, 1, 2, 3, 4}
+							}
+							for _, ep := range eps {
+								if rep.full() {
+									return
+								}
+								cases++
+								c11Invoked = 0
+								args := []interface{}{op, "tail"}
+								out, ok := c11Run(rep, ep, format, args, opText+", \"tail\"", false, mayProp)
+								if !ok {
+									continue
+								}
+								if c11Invoked > 0 {
+									nontrivial++
+								}
+								c11CheckReport(rep, c11CallText(ep, format, opText+", \"tail\""), out, c11Invoked, r, pk, ctx.safe)
+							}
+						}
+					}
+				}
+			}
+		}
+	}
+	c11Bounded("panics of String/Error/Format/GoString/SafeFormat/SafeMessage methods (also after partial output, also on nil receivers) are contained: no panic out of the call unless printing the payload panics, report %!verb(PANIC=...) in place with the payload enveloped, text and operands before and after intact",
+		cases, nontrivial, "a user method was invoked during the call (and panicked)",
+		fmt.Sprintf("%d panic payloads (string, string with markers, error, 3 run-time errors, int, nil pointer, struct, Safe value, nil, 2 payloads whose printing panics) x 9 panicking types + 10 typed nil receivers x %d contexts (bare, Safe, Unsafe, slice, struct, pointer, map, reflect.Value, inside a SafeFormatter that goes on printing) x %d verbs x %d flag strings x %d width/precision x 5 Printf-style + 4 Print-style entry points", len(raises), len(ctxs), len(verbs), len(flags), len(widths)),
+		rep.fails == 0)
+}
+
+// sweep F: SafeWriter / io.Writer methods of StringBuilder and of the SafePrinter, in every buffer state
+type c11W interface {
+	SafeWriter
+	Write([]byte) (int, error)
+}
+
+type c11WOp struct {
+	name string
+	do   func(w c11W)
+	alts []string // admissible contents contributed by the operation
+}
+
+func c11States() []c11WOp {
+	return []c11WOp{
+		{"", func(w c11W) {}, []string{""}},
+		{`SafeString("s")`, func(w c11W) { w.SafeString("s") }, []string{"s"}},
+		{`UnsafeString("u")`, func(w c11W) { w.UnsafeString("u") }, []string{"u"}},
+		{`Print(RedactableString("‹x›"))`, func(w c11W) { w.Print(RedactableString(vS + "x" + vE)) }, []string{"x"}},
+		{`UnsafeString("")`, func(w c11W) { w.UnsafeString("") }, []string{""}},
+		{`SafeString("\xe2\x80")`, func(w c11W) { w.SafeString("\xe2\x80") }, []string{"\xe2\x80"}},
+		{`UnsafeString("\xe2\x80")`, func(w c11W) { w.UnsafeString("\xe2\x80") }, []string{"\xe2\x80"}},
+		{`Print(RedactableString("r\xe2"))`, func(w c11W) { w.Print(RedactableString("r\xe2")) }, []string{"r\xe2"}},
+		{`SafeString("‹")`, func(w c11W) { w.SafeString(SafeString(vS)) }, []string{""}},
+		{`UnsafeString("a\n")`, func(w c11W) { w.UnsafeString("a\n") }, []string{"a\n"}},
+		{`Printf("%5d", 1); UnsafeByte(0xe2)`, func(w c11W) { w.Printf("%5d", 1); w.UnsafeByte(0xe2) }, []string{"    1", "    1\xe2"}},
+	}
+}
+
+func c11RuneOps(r rune, all bool) []c11WOp {
+	want := []string{string(r)} // the replacement character for surrogates, negative and out-of-range values
+	n := func(m string) string { return fmt.Sprintf("%s(%d)", m, r) }
+	ops := []c11WOp{
+		{n("SafeRune"), func(w c11W) { w.SafeRune(SafeRune(r)) }, want},
+		{n("UnsafeRune"), func(w c11W) { w.UnsafeRune(r) }, want},
+		{n("WriteRune"), func(w c11W) {
+			if rw, ok := w.(interface{ WriteRune(rune) error }); ok {
+				_ = rw.WriteRune(r)
+			} else {
+				w.UnsafeRune(r)
+			}
+		}, want},
+	}
+	if all {
+		ops = append(ops,
+			c11WOp{n("Print(SafeRune)"), func(w c11W) { w.Print(SafeRune(r)) }, []string{fmt.Sprint(r)}},
+			c11WOp{fmt.Sprintf("Printf(\"%%c\", %d)", r), func(w c11W) { w.Printf("%c", r) }, want},
+			c11WOp{fmt.Sprintf("Printf(\"%%c\", SafeRune(%d))", r), func(w c11W) { w.Printf("%c", SafeRune(r)) }, want},
+		)
+	}
+	return ops
+}
+
+func c11ByteOps(b byte) []c11WOp {
+	alts := []string{string([]byte{b}), ""} // a non-ASCII unsafe byte may be rendered as the escape character
+	n := func(m string) string { return fmt.Sprintf("%s(0x%02x)", m, b) }
+	return []c11WOp{
+		{n("SafeByte"), func(w c11W) { w.SafeByte(i.SafeByte(b)) }, alts},
+		{n("UnsafeByte"), func(w c11W) { w.UnsafeByte(b) }, alts},
+		{n("WriteByte"), func(w c11W) {
+			if bw, ok := w.(io.ByteWriter); ok {
+				_ = bw.WriteByte(b)
+			} else {
+				w.UnsafeByte(b)
+			}
+		}, alts},
+	}
+}
+
+func c11BytesOps(x string) []c11WOp {
+	alts := []string{x}
+	n := func(m string) string { return fmt.Sprintf("%s(%q)", m, x) }
+	return []c11WOp{
+		{n("SafeBytes"), func(w c11W) { w.SafeBytes(i.SafeBytes(x)) }, alts},
+		{n("UnsafeBytes"), func(w c11W) { w.UnsafeBytes([]byte(x)) }, alts},
+		{n("Write"), func(w c11W) { _, _ = w.Write([]byte(x)) }, alts},
+		{n("SafeString"), func(w c11W) { w.SafeString(SafeString(x)) }, alts},
+		{n("UnsafeString"), func(w c11W) { w.UnsafeString(x) }, alts},
+		{n("io.WriteString"), func(w c11W) { _, _ = io.WriteString(w, x) }, alts},
+		{n("Print"), func(w c11W) { w.Print(x) }, alts},
+		{n("Print(RedactableString)"), func(w c11W) { w.Print(RedactableString(x)) }, alts},
+		{n("Print(RedactableBytes)"), func(w c11W) { w.Print(RedactableBytes(x)) }, alts},
+		{n("Printf(\"%s\", Safe)"), func(w c11W) { w.Printf("%s", Safe(x)) }, alts},
+	}
+}
+
+// c11RunW runs state; op; suffix on a StringBuilder (kind 0) or on the SafePrinter (kind 1).
+func c11RunW(rep *c11Rep, kind int, st, op c11WOp) bool {
+	seq := func(w c11W) {
+		st.do(w)
+		op.do(w)
+		w.SafeString("|Z")
+		w.UnsafeString("z")
+	}
+	var out string
+	pv, panicked := c11Try(func() {
+		if kind == 0 {
+			var b builder.StringBuilder
+			seq(&b)
+			out = string(b.RedactableString())
+		} else {
+			out = string(Sprintfn(func(w SafePrinter) { seq(w) }))
+		}
+	})
+	call := func() string {
+		if kind == 0 {
+			return "StringBuilder{" + st.name + "; " + op.name + "; SafeString(\"|Z\"); UnsafeString(\"z\")}"
+		}
+		return "Sprintfn(func(w SafePrinter){" + st.name + "; " + op.name + "; SafeString(\"|Z\"); UnsafeString(\"z\")})"
+	}
+	if panicked {
+		rep.fail(call(), "panic: "+fmt.Sprint(pv), "a writing call panicked")
+		return false
+	}
+	got := c11Norm(out)
+	for _, sa := range st.alts {
+		for _, a := range op.alts {
+			// bytes of consecutive writes may or may not be taken together as a marker (and escaped)
+			if got == c11Norm(sa)+c11Norm(a)+"|Zz" || got == c11Norm(sa+a+"|Zz") {
+				return true
+			}
+		}
+	}
+	rep.fail(call(), out, "the content written before, by, or after the call is lost or altered (compared up to delimiters and the escape character '?')")
+	return false
+}
+
+func c11SweepWriters(rep *c11Rep) {
+	thorough := c11Thorough()
+	states := c11States()
+	cases, nontrivial := 0, 0
+	// runes: classes in every state, the whole range in the empty state
+	classes := []rune{-1, -2, math.MinInt32, math.MaxInt32, 0x110000, 0x110001, 0x10FFFF, 0xD7FF, 0xD800, 0xD801, 0xDBFF, 0xDC00, 0xDFFF, 0xE000, 0xFFFD, 0xFFFE, 0xFFFF, 0x10000,
+		0, 1, '\n', ' ', 'a', '?', 0x7f, 0x80, 0xff, 0x7ff, 0x800, 0x2038, 0x2039, 0x203A, 0x203B, 0x2009, 0xe2, 0x80b9, 0x4e16}
+	for _, r := range classes {
+		for _, st := range states {
+			for _, op := range c11RuneOps(r, true) {
+				for kind := 0; kind < 2; kind++ {
+					if rep.full() {
+						return
+					}
+					cases++
+					if !utf8.ValidRune(r) || r == 0x2039 || r == 0x203A {
+						nontrivial++
+					}
+					c11RunW(rep, kind, st, op)
+				}
+			}
+		}
+	}
+	stride := rune(61)
+	if thorough {
+		stride = 1
+	}
+	runeCase := func(r rune) {
+		for _, op := range c11RuneOps(r, false) {
+			for kind := 0; kind < 2; kind++ {
+				if rep.full() {
+					return
+				}
+				cases++
+				if !utf8.ValidRune(r) || r == 0x2039 || r == 0x203A {
+					nontrivial++
+				}
+				c11RunW(rep, kind, states[int(r&1)*2], op)
+			}
+		}
+	}
+	for r := rune(-3); r <= 0x110002 && !rep.full(); r += stride {
+		runeCase(r)
+	}
+	if !thorough {
+		for r := rune(0xD7F0); r < 0xE010 && !rep.full(); r++ {
+			runeCase(r)
+		}
+	}
+	runeCases, runeNT := cases, nontrivial
+	strideText := "every 61st rune of [-3, 0x110002] plus all of [0xD7F0, 0xE010)"
+	if thorough {
+		strideText = "every rune of [-3, 0x110002]"
+	}
+	c11Bounded("SafeRune/UnsafeRune/WriteRune (StringBuilder and SafePrinter) accept every rune: no panic, content before/after intact, invalid runes rendered as U+FFFD",
+		runeCases, runeNT, "the rune is invalid (surrogate, negative, out of range) or a marker",
+		fmt.Sprintf("%d rune classes x %d buffer states x 6 operations x 2 writers; %s x 3 operations x 2 writers in the empty / open-envelope state", len(classes), len(states), strideText), rep.fails == 0)
+
+	// bytes
+	cases, nontrivial = 0, 0
+	for b := 0; b < 256; b++ {
+		for _, st := range states {
+			for _, op := range c11ByteOps(byte(b)) {
+				for kind := 0; kind < 2; kind++ {
+					if rep.full() {
+						return
+					}
+					cases++
+					if b >= 0x80 {
+						nontrivial++
+					}
+					c11RunW(rep, kind, st, op)
+				}
+			}
+		}
+	}
+	c11Bounded("SafeByte/UnsafeByte/WriteByte accept every byte: no panic, content before/after intact", cases, nontrivial, "the byte is not ASCII",
+		fmt.Sprintf("256 bytes x %d buffer states x 3 operations x 2 writers", len(states)), rep.fails == 0)
+
+	// byte strings
+	cases, nontrivial = 0, 0
+	alpha := []byte{0xe2, 0x80, 0xb9, 0xba, 'a', '\n', '?', 0xff, 0xc3, 0x00}
+	maxLen := 3
+	if thorough {
+		maxLen = 4
+	}
+	var strs []string
+	var rec func(prefix string, left int)
+	rec = func(prefix string, left int) {
+		strs = append(strs, prefix)
+		if left == 0 {
+			return
+		}
+		for _, c := range alpha {
+			rec(prefix+string([]byte{c}), left-1)
+		}
+	}
+	rec("", maxLen)
+	nAlpha := len(strs)
+	if thorough {
+		// every two-byte string, in one state
+		for a := 0; a < 256; a++ {
+			for b := 0; b < 256; b++ {
+				strs = append(strs, string([]byte{byte(a), byte(b)}))
+			}
+		}
+	}
+	strs = append(strs, strings.Repeat("\xe2\x80", 100), strings.Repeat(vS, 50)+"\n\n"+strings.Repeat(vE, 50), strings.Repeat("a\n", 70))
+	for si, x := range strs {
+		sts := states
+		if si >= nAlpha || (len(x) > 2 && !thorough) {
+			sts = states[si%len(states) : si%len(states)+1] // one state, rotating
+		}
+		for _, st := range sts {
+			for _, op := range c11BytesOps(x) {
+				for kind := 0; kind < 2; kind++ {
+					if rep.full() {
+						return
+					}
+					cases++
+					if !utf8.ValidString(x) || strings.Contains(x, vS) || strings.Contains(x, vE) {
+						nontrivial++
+					}
+					c11RunW(rep, kind, st, op)
+				}
+			}
+		}
+	}
+	c11Bounded("Write/WriteString/SafeBytes/UnsafeBytes/SafeString/UnsafeString/Print accept every byte string: no panic, content before/after intact",
+		cases, nontrivial, "the byte string is invalid UTF-8 or contains a marker",
+		fmt.Sprintf("%d byte strings (all of length <= %d over {e2 80 b9 ba 'a' LF '?' ff c3 00}; thorough: all 65536 two-byte strings; 3 long ones) x up to %d buffer states x 10 operations x 2 writers", len(strs), maxLen, len(states)), rep.fails == 0)
+}
+
+// sweep E: JoinTo / Join with every kind of operand
+func c11SweepJoin(rep *c11Rep) {
+	ops := c11Ops()
+	for _, r := range c11Raises() {
+		if r.propagates || r.lenient {
+			continue
+		}
+		for _, pk := range c11Panickers(r) {
+			ops = append(ops, c11Op{pk.name, pk.v, false, false})
+		}
+	}
+	var vals []c11Op
+	for _, op := range ops {
+		vals = append(vals, op, c11Op{"[]interface{}{" + op.name + ", " + op.name + "}", []interface{}{op.v, op.v}, false, false})
+	}
+	vals = append(vals,
+		c11Op{"[]int{1,2,3}", []int{1, 2, 3}, false, false},
+		c11Op{"[]string{}", []string{}, false, false},
+		c11Op{`[]string{"","‹"}`, []string{"", vS}, false, false},
+		c11Op{`[]RedactableString{"‹a›","","b"}`, []RedactableString{RedactableString(vS + "a" + vE), "", "b"}, false, false},
+		c11Op{`[][]byte{nil,{0xe2}}`, [][]byte{nil, {0xe2}}, false, false},
+		c11Op{"[]error{nil,io.EOF}", []error{nil, io.EOF}, false, false},
+		c11Op{"[]*int{nil}", []*int{nil}, false, false},
+		c11Op{"[][]int{nil,{1}}", [][]int{nil, {1}}, false, false},
+		c11Op{"[]struct{a int}{{1}}", []struct{ a int }{{1}}, false, false},
+		c11Op{"[]SafeRune{-1,0xD800}", []SafeRune{-1, 0xD800}, false, false},
+		c11Op{"[]reflect.Value{{}}", []reflect.Value{{}}, false, false},
+	)
+	delims := []RedactableString{"", ",", RedactableString(vS + "d" + vE), "\xe2", "\n"}
+	states := c11States()
+	cases, nontrivial := 0, 0
+	for vi, val := range vals {
+		rv := reflect.ValueOf(val.v)
+		isSlice := rv.Kind() == reflect.Slice
+		for di, delim := range delims {
+			for kind := 0; kind < 2; kind++ {
+				if rep.full() {
+					return
+				}
+				st := states[(vi+di+kind)%len(states)]
+				cases++
+				if !isSlice {
+					nontrivial++
+				}
+				var out string
+				seq := func(w c11W) {
+					st.do(w)
+					JoinTo(w, delim, val.v)
+					w.SafeString("|Z")
+					w.UnsafeString("z")
+				}
+				call := fmt.Sprintf("{%s; JoinTo(w, %q, %s); SafeString(\"|Z\"); UnsafeString(\"z\")} on %s", st.name, string(delim), val.name, [...]string{"a StringBuilder", "the SafePrinter of Sprintfn"}[kind])
+				pv, panicked := c11Try(func() {
+					if kind == 0 {
+						var b builder.StringBuilder
+						seq(&b)
+						out = string(b.RedactableString())
+					} else {
+						out = string(Sprintfn(func(w SafePrinter) { seq(w) }))
+					}
+				})
+				if panicked {
+					rep.fail(call, "panic: "+fmt.Sprint(pv), "JoinTo panicked")
+					continue
+				}
+				// reference: the operand printed as is if it is not a slice, else the elements printed one by one
+				var want string
+				_, refPanicked := c11Try(func() {
+					if !isSlice {
+						want = c11Norm(string(Sprint(val.v)))
+					} else {
+						for k := 0; k < rv.Len(); k++ {
+							if k > 0 {
+								want += c11Norm(string(delim))
+							}
+							want += c11Norm(string(Sprint(rv.Index(k).Interface())))
+						}
+					}
+				})
+				if refPanicked {
+					continue
+				}
+				got := c11Norm(out)
+				okc := false
+				for _, sa := range st.alts {
+					if got == c11Norm(sa)+want+"|Zz" || got == c11Norm(sa+want)+"|Zz" {
+						okc = true
+					}
+				}
+				if !okc {
+					rep.fail(call, out, "JoinTo does not write the buffer content, then the operand (as Print does) or its elements separated by the delimiter, then the rest; expected content "+c11Short(want))
+				}
+			}
+		}
+	}
+	c11Bounded("JoinTo accepts non-slice, nil and slice operands of every kind: no panic, content before/after intact, a non-slice is printed once as Print does, a slice element by element",
+		cases, nontrivial, "the operand is not a slice (nil, scalar, array, map, pointer, struct, func, chan, reflect.Value, panicking user type...)",
+		fmt.Sprintf("%d operands (every operand kind of the directive sweep and []interface{}{v, v} of it, panicking user types, 11 typed slices) x %d delimiters x 2 writers, buffer state rotating over %d states", len(vals), len(delims), len(states)),
+		rep.fails == 0)
+}
+
+// sweep G: the rest of the public API
+type c11RegSafe struct{ r *c11Raise }
+
+func (p c11RegSafe) String() string { p.r.f(); return "" }
+
+func c11SweepMisc(rep *c11Rep) {
+	thorough := c11Thorough()
+	cases, nontrivial := 0, 0
+	try := func(call string, nt bool, f func() string) {
+		if rep.full() {
+			return
+		}
+		cases++
+		if nt {
+			nontrivial++
+		}
+		var out string
+		if pv, panicked := c11Try(func() { out = f() }); panicked {
+			rep.fail(call, "panic: "+fmt.Sprint(pv), "a public entry point panicked")
+		}
+		_ = out
+	}
+	// MakeFormat with arbitrary fmt.State answers and verbs
+	verbs := []rune{'v', 's', 'd', 'x', '%', 0, -1, 0xD800, 0x110000, math.MinInt32, math.MaxInt32, 0x2039, 'é', '\n'}
+	nums := []int{0, 1, -1, 7, 3000, math.MaxInt64, math.MinInt64}
+	for _, verb := range verbs {
+		for _, fl := range c11FlagSets(true)[:32] {
+			for _, wid := range nums {
+				for _, prec := range nums {
+					for m := 0; m < 4; m++ {
+						st := &c11State{wid: wid, prec: prec, widOk: m&1 != 0, pOk: m&2 != 0, flags: fl}
+						verb := verb
+						try(fmt.Sprintf("MakeFormat(State{flags %q, width %d,%v, precision %d,%v}, %d)", fl, wid, st.widOk, prec, st.pOk, verb), !utf8.ValidRune(verb) || wid < 0 || prec < 0, func() string {
+							_, f := MakeFormat(st, verb)
+							if !strings.HasPrefix(f, "%") || !strings.HasSuffix(f, string(verb)) {
+								panic("MakeFormat result " + f + " does not reproduce the verb")
+							}
+							// the reproduced format is accepted by the printer
+							return string(Sprintf("A|"+f+"|Z", -42))
+						})
+					}
+				}
+			}
+		}
+	}
+	// ManualBuffer: every sequence of operations up to a length (Grow with a negative count is outside the claim)
+	type bop struct {
+		name string
+		f    func(b *ManualBuffer)
+	}
+	bops := []bop{
+		{"SetMode(-1)", func(b *ManualBuffer) { b.SetMode(-1) }},
+		{"SetMode(UnsafeEscaped)", func(b *ManualBuffer) { b.SetMode(0) }},
+		{"SetMode(SafeEscaped)", func(b *ManualBuffer) { b.SetMode(1) }},
+		{"SetMode(SafeRaw)", func(b *ManualBuffer) { b.SetMode(2) }},
+		{"SetMode(7)", func(b *ManualBuffer) { b.SetMode(7) }},
+		{`Write("x")`, func(b *ManualBuffer) { _, _ = b.Write([]byte("x")) }},
+		{`Write(nil)`, func(b *ManualBuffer) { _, _ = b.Write(nil) }},
+		{`WriteString("‹")`, func(b *ManualBuffer) { _, _ = b.WriteString(vS) }},
+		{`WriteString("›\n")`, func(b *ManualBuffer) { _, _ = b.WriteString(vE + "\n") }},
+		{`WriteString("\xe2\x80")`, func(b *ManualBuffer) { _, _ = b.WriteString("\xe2\x80") }},
+		{"WriteByte(0xb9)", func(b *ManualBuffer) { _ = b.WriteByte(0xb9) }},
+		{"WriteByte('a')", func(b *ManualBuffer) { _ = b.WriteByte('a') }},
+		{"WriteRune(-1)", func(b *ManualBuffer) { _ = b.WriteRune(-1) }},
+		{"WriteRune(0xDFFF)", func(b *ManualBuffer) { _ = b.WriteRune(0xDFFF) }},
+		{"WriteRune(0x203A)", func(b *ManualBuffer) { _ = b.WriteRune(0x203A) }},
+		{"Grow(0)", func(b *ManualBuffer) { b.Grow(0) }},
+		{"Grow(70)", func(b *ManualBuffer) { b.Grow(70) }},
+		{"Reset()", func(b *ManualBuffer) { b.Reset() }},
+		{"Len();Cap();GetMode()", func(b *ManualBuffer) { _ = b.Len(); _ = b.Cap(); _ = b.GetMode() }},
+		{"String();RedactableString();RedactableBytes()", func(b *ManualBuffer) { _ = b.String(); _ = b.RedactableString(); _ = b.RedactableBytes() }},
+		{"TakeRedactableString()", func(b *ManualBuffer) { _ = b.TakeRedactableString() }},
+		{"TakeRedactableBytes()", func(b *ManualBuffer) { _ = b.TakeRedactableBytes() }},
+	}
+	depth := 3
+	if thorough {
+		depth = 4
+	}
+	var seqs func(prefix []int, left int)
+	seqs = func(prefix []int, left int) {
+		if left == 0 {
+			names := ""
+			for _, k := range prefix {
+				names += bops[k].name + "; "
+			}
+			try("ManualBuffer{"+names+"RedactableString()}", true, func() string {
+				var b ManualBuffer
+				for _, k := range prefix {
+					bops[k].f(&b)
+				}
+				return string(b.RedactableString())
+			})
+			return
+		}
+		for k := range bops {
+			if rep.full() {
+				return
+			}
+			seqs(append(prefix, k), left-1)
+		}
+	}
+	seqs(nil, depth)
+	try("(*ManualBuffer)(nil).TakeRedactableString()", true, func() string { return string((*ManualBuffer)(nil).TakeRedactableString()) })
+	// string-level entry points on arbitrary byte strings
+	alpha := []string{"\xe2", "\x80", "\xb9", "\xba", "a", "\n", "\xff", vS, vE, "‹×›"}
+	var strs []string
+	var rec func(prefix string, left int)
+	rec = func(prefix string, left int) {
+		strs = append(strs, prefix)
+		if left == 0 {
+			return
+		}
+		for _, c := range alpha {
+			rec(prefix+c, left-1)
+		}
+	}
+	rec("", 3)
+	for _, x := range strs {
+		x := x
+		try(fmt.Sprintf("EscapeBytes/EscapeMarkers/Redact/StripMarkers/ToBytes/ToString/Join/SortStrings/Sprint on %q", x), !utf8.ValidString(x), func() string {
+			_ = EscapeBytes([]byte(x))
+			_ = EscapeMarkers([]byte(x))
+			R, B := RedactableString(x), RedactableBytes(x)
+			_, _, _ = R.Redact(), R.StripMarkers(), R.ToBytes()
+			_, _, _ = B.Redact(), B.StripMarkers(), B.ToString()
+			rs := []RedactableString{R, "", R}
+			SortStrings(rs)
+			_ = Join(R, rs)
+			_ = Sprintf("%v %s %q %x %d %10.2v %T %p", R, B, R, B, R, B, R, B)
+			return string(Sprint(R, B, &R, &B, []RedactableString{R}, map[RedactableString]RedactableBytes{R: B}))
+		})
+	}
+	try("EscapeBytes(nil); EscapeMarkers(nil); Join(\"\", nil); SortStrings(nil); StringWithoutMarkers(nil)", true, func() string {
+		_, _ = EscapeBytes(nil), EscapeMarkers(nil)
+		_ = Join("", nil)
+		_ = Join(",", []RedactableString{})
+		SortStrings(nil)
+		_, _, _ = StartMarker(), EndMarker(), RedactedMarker()
+		_ = RedactableBytes(nil).Redact()
+		_ = RedactableBytes(nil).StripMarkers()
+		_ = RedactableBytes(nil).ToString()
+		return StringWithoutMarkers(nil) + StringWithoutMarkers(c11SFAll{}) + StringWithoutMarkers((*c11PSafeFormat)(nil))
+	})
+	try("Sprint(); Sprint(nil); Sprintf(\"\"); Sprintfn(func(SafePrinter){}); HelperForErrorf(\"\"); Fprint/Fprintf to a failing writer", true, func() string {
+		_, _, _, _ = Sprint(), Sprint(nil), Sprint(nil, nil), Sprintf("")
+		_ = Sprintfn(func(SafePrinter) {})
+		_, _ = HelperForErrorf("")
+		_, _ = HelperForErrorf("%w %w", io.EOF, io.EOF)
+		_, _ = HelperForErrorf("%w", nil)
+		_, _ = HelperForErrorf("%w", (*c11Err)(nil))
+		_, _ = Fprint(&c11ErrWriter{0}, "x", 1, nil)
+		_, _ = Fprintf(&c11ErrWriter{3}, "%1000d|%v", 1, nil)
+		_, _ = Fprint(io.Discard)
+		return ""
+	})
+	// a registered error-redaction function that panics after partial output
+	boom := &c11Raise{name: `panic("boom")`, f: func() { panic("boom") }, text: "boom"}
+	func() {
+		defer RegisterRedactErrorFn(nil)
+		RegisterRedactErrorFn(func(err error, p i.SafePrinter, verb rune) {
+			c11Invoked++
+			p.SafeString("es")
+			p.UnsafeString(err.Error())
+			panic("boom")
+		})
+		for _, format := range []string{"A|%v|M|%v|Z", "A|%+v|M|%v|Z", "A|%w|M|%v|Z", "A|%-40q|M|%v|Z", "A|%d|M|%v|Z"} {
+			for ep := 0; ep < c11EpCount; ep++ {
+				for _, e := range []c11Op{{"io.EOF", io.EOF, false, false}, {"(*c11ValErr)(nil)", (*c11ValErr)(nil), false, false}, {"[]error{io.EOF}", []error{io.EOF}, false, false}} {
+					if rep.full() {
+						return
+					}
+					cases++
+					nontrivial++
+					c11Invoked = 0
+					out, ok := c11Run(rep, ep, format, []interface{}{e.v, "tail"}, e.name+", \"tail\"", false, false)
+					if ok && e.name != "(*c11ValErr)(nil)" {
+						c11CheckReport(rep, c11CallText(ep, format, e.name+", \"tail\"")+" with RegisterRedactErrorFn(fn that writes and panics)", out, c11Invoked, boom, c11Panicker{partial: "esEOF"}, false)
+					}
+				}
+			}
+		}
+	}()
+	// a registered safe type whose String method panics
+	RegisterSafeType(reflect.TypeOf(c11RegSafe{}))
+	for _, format := range []string{"A|%v|M|%v|Z", "A|%x|M|%v|Z", "A|%d|M|%v|Z", "A|%#v|M|%v|Z"} {
+		cases++
+		nontrivial++
+		out, ok := c11Run(rep, cases%c11EpCount, format, []interface{}{c11RegSafe{boom}, "tail"}, "c11RegSafe{panic(\"boom\")} (registered safe type), \"tail\"", false, false)
+		if ok {
+			c11CheckReport(rep, c11CallText(cases%c11EpCount, format, "c11RegSafe{...}, \"tail\""), out, 0, nil, c11Panicker{}, true)
+		}
+	}
+	c11Bounded("remaining public entry points never panic: MakeFormat with arbitrary State answers and verbs, ManualBuffer operation sequences (all modes, invalid runes, Take/Reset in any order), Escape*/Redact/StripMarkers/Join/SortStrings on arbitrary byte strings, empty/nil operands, failing writers, a panicking RegisterRedactErrorFn function (contained, partial output kept), a panicking registered safe type",
+		cases, nontrivial, "the input is outside the usual domain (invalid verb, negative width/precision, buffer sequences, invalid UTF-8, nil, panicking callbacks)",
+		fmt.Sprintf("14 verbs x 32 flag subsets x 7 widths x 7 precisions x 4 presence combinations; all sequences of %d of %d ManualBuffer operations; %d byte strings (length <= 3 over 10 pieces); 5 formats x 5 entry points x 3 error operands", depth, len(bops), len(strs)),
+		rep.fails == 0)
+}
+
 func TestVerifBoundedC11(t *testing.T) {
 	rep := &c11Rep{t: t}
-	for _, sweep := range []func(*c11Rep){c11SweepDirectives, c11SweepIntegers} {
+	for _, sweep := range []func(*c11Rep){c11SweepIntegers, c11SweepPanics, c11SweepWriters, c11SweepJoin, c11SweepMisc, c11SweepIndexes, c11SweepDirectives} {
 		if rep.full() {
 			break
 		}
+		start := time.Now()
 		sweep(rep)
+		if os.Getenv("C11_TIMES") != "" {
+			fmt.Printf("C11 sweep took %v\n", time.Since(start))
+		}
 	}
 }
